@@ -23,6 +23,9 @@ pub use crate::types::{ActiveChain, SyncShared};
 /// verif hook: the in-flight download table as a stand-alone structure
 #[cfg(feature = "verif-hooks")]
 pub use crate::types::InflightBlocks;
+/// verif hook: the result type of `Relayer::reconstruct_block` (public method, private type path)
+#[cfg(feature = "verif-hooks")]
+pub use crate::relayer::ReconstructionResult;
 
 /// verif hooks: the context-free verifiers the relay path runs on peer-supplied compact
 /// blocks, block transactions and uncles (crate-private in production)
